@@ -53,6 +53,15 @@ def runs_of(bm):
     return runs
 
 
+def bands_of(e):
+    """the band(s) an amplifier element really amplifies: a multiband node is the amplifiers it holds (a partly equipped
+    node amplifies less than its type could), a single amplifier its configured band(s)"""
+    from gnpy.core.elements import Multiband_amplifier
+    if isinstance(e, Multiband_amplifier):
+        return [{'f_min': a.params.f_min, 'f_max': a.params.f_max} for a in e.amplifiers.values()]
+    return e.params.bands
+
+
 def project(name, net, oms_list, expect=None):
     """observed state of build_oms_list as integers/strings (no judgement here)"""
     from gnpy.core.elements import Edfa, Multiband_amplifier
@@ -67,12 +76,12 @@ def project(name, net, oms_list, expect=None):
                                rev=pos[id(o.reversed_oms)] if getattr(o, 'reversed_oms', None) is not None else 0))
         bm = o.spectrum_bitmap
         rec['maps'].append(dict(runs=runs_of(bm), n=len(bm.bitmap), nmin=bm.n_min, nmax=bm.n_max))
-        amps = [[[fidx(b['f_min'], 'lo'), fidx(b['f_max'], 'hi')] for b in sorted(e.params.bands, key=lambda x: x['f_min'])]
+        amps = [[[fidx(b['f_min'], 'lo'), fidx(b['f_max'], 'hi')] for b in sorted(bands_of(e), key=lambda x: x['f_min'])]
                 for e in o.el_list if isinstance(e, (Edfa, Multiband_amplifier))]
         rec['amps'].append(amps)
     for n in nodes:
         if isinstance(n, (Edfa, Multiband_amplifier)):
-            allb += [[fidx(b['f_min'], 'lo'), fidx(b['f_max'], 'hi')] for b in n.params.bands]
+            allb += [[fidx(b['f_min'], 'lo'), fidx(b['f_max'], 'hi')] for b in bands_of(n)]
     rec['ext'] = [min(b[0] for b in allb), max(b[1] for b in allb)]
     for (a, b, must) in expect or []:
         rec['expect'].append({'from': ix[a], 'to': ix[b], 'must': [ix[u] for u in must]})
@@ -249,6 +258,29 @@ def shipped_records(chk):
             chk.violation(f'B3|build_oms_list-raises|{type(e).__name__}|{name}',
                           dict(network=netf, equipment=eqf, exception=f'{type(e).__name__}: {e}',
                                note='C15: for every designed network the OMS list can be built'))
+            continue
+        recs.append(project(name, net, oms_list))
+    # multiband line with a partly equipped site: the L-band module of one multiband amplifier is not installed
+    from gnpy.tools.json_io import load_json, network_from_json
+    eq = equipment('eqpt_config_multiband.json')
+    base = load_json(EX / 'multiband_example_network.json')
+    multi = [e['uid'] for e in base['elements'] if e['type'] == 'Multiband_amplifier' and len(e.get('amplifiers', [])) > 1]
+    for uid in (multi if chk.tier == 'thorough' else multi[1:3]):
+        data = copy.deepcopy(base)
+        el = next(e for e in data['elements'] if e['uid'] == uid)
+        el['amplifiers'] = [a for a in el['amplifiers'] if not str(a.get('type_variety', '')).endswith('_L')]
+        name = f'multiband_example_network.json[{uid}: C module only]'
+        chk.case(('partial', uid))
+        try:
+            net = designed_network(eq, network_from_json(data, eq))[0]
+        except Exception as e:                                  # noqa  (design problems are C08's business)
+            chk.cov.setdefault('b3_skipped', []).append(f'{name}: {type(e).__name__}')
+            continue
+        try:
+            oms_list = build_oms_list(net, eq)
+        except Exception as e:                                  # noqa
+            chk.violation(f'B3|build_oms_list-raises|{type(e).__name__}|partly-equipped-multiband',
+                          dict(network=name, exception=f'{type(e).__name__}: {e}'))
             continue
         recs.append(project(name, net, oms_list))
     return recs
